@@ -82,6 +82,8 @@ theorem done_effects_order_invariant {unv full : String → String} {t₀ t : Ta
   refine ⟨?_, h1⟩
   rw [h1, h2, doneLoop_perm (hp.map _)]
 
+example : doneLoop [true, false, true] = doneLoop [false, true, true] := done_order_invariant (List.Perm.swap ..)
+
 example : doneLoopM id id [("b", "x/b")] [⟨[⟨"b", "x/b"⟩], true⟩, ⟨[], false⟩] =
     doneLoopM id id [("b", "x/b")] [⟨[], false⟩, ⟨[⟨"b", "x/b"⟩], true⟩] := by decide
 
